@@ -4,6 +4,7 @@ parametric in the element type, so tags stand for arbitrary bit patterns).
 Request:
   reg <dim> <eulDefined 0|1> <len gridShape> <gridShape…>
   params <n> <origin… dx… gridSize…>                (3·n rationals)
+  params-from-corner <n> <corner x y (z)> <dx> <gridSize…>   (registry parameters as EulerianFieldIO derives them)
   eul <name> <scalar|vector> <rank> <shape…> <tags…>
   grid <name> <rank> <shape…> <tags…>
   lag <gridname> <name> <scalar|vector> <rank> <shape…> <tags…>
@@ -87,6 +88,11 @@ partial def loop (h : IO.FS.Stream) (s : Sess) : IO Unit := do
   | "reg" :: d :: e :: n :: rest =>
       loop h { s with reg := { s.reg with dim := d.toNat!, eulDefined := e == "1", gridShape := (rest.take n.toNat!).map String.toNat! } }
   | "params" :: rest => loop h { s with reg := { s.reg with params := parseParams rest } }
+  | "params-from-corner" :: n :: rest =>
+      -- registry described the way `EulerianFieldIO` is: lower corner in x-y-z order, dx, grid shape
+      let k := n.toNat!
+      let v := rest.map fun t => (parseRat t).getD 0
+      loop h { s with reg := { s.reg with params := eulerianFieldIOParams (v.take k) ((v.drop k).headD 0) ((v.drop (k + 1)).take k) } }
   | "eul" :: name :: k :: rest =>
       let (a, _) := parseArr rest
       loop h { s with reg := { s.reg with eul := s.reg.eul ++ [⟨name, kindOf k, a⟩] } }
